@@ -188,6 +188,9 @@ func mapLeaves(v Value, f func(Sc) Sc) Value {
 	return v
 }
 
+// mergingValues is set while control-flow merges are computed (as opposed to equality checks).
+var mergingValues bool
+
 // zipLeaves combines two values of the same shape leafwise.  ok=false if shapes differ.
 func zipLeaves(a, b Value, f func(x, y Sc) Sc) (Value, bool) {
 	switch x := a.(type) {
@@ -238,6 +241,9 @@ func zipLeaves(a, b Value, f func(x, y Sc) Sc) (Value, bool) {
 	case Ptr:
 		y, ok := b.(Ptr)
 		if !ok {
+			if o, isO := b.(Opq); isO && mergingValues {
+				return o, true
+			}
 			return nil, false
 		}
 		if x.Nil && y.Nil {
@@ -255,6 +261,11 @@ func zipLeaves(a, b Value, f func(x, y Sc) Sc) (Value, bool) {
 			return z, true
 		}
 		if x.Obj != y.Obj || len(x.Path) != len(y.Path) {
+			if mergingValues {
+				// pointers to different objects cannot be merged into one symbolic pointer: the result is
+				// a placeholder that may be passed around but not dereferenced
+				return Opq{Tag: "unmergeable pointer"}, true
+			}
 			return nil, false
 		}
 		path := make([]Sel, len(x.Path))
